@@ -50,6 +50,11 @@ def cases(tier, seed, i, n):
         for what in ('pong', 'close'):
             for t_, sl in ((1.0, 0.9), (1.0, 0.7), (2.0, 1.8), (3.0, 2.95)):
                 yield dict(kind='slowpong', what=what, t=t_, sleep=sl)
+        # a close() that was refused (made from within a send of the same thread: nothing written, the websocket is not
+        # closing) or whose frame went out later than it was asked for starts no close timer / starts it with the frame
+        for c_ in (1.0, 2.0):
+            for inner in ('close', 'close-then-real-close-later'):
+                yield dict(kind='busy-close', c=c_, inner=inner)
         # a real loopback connection on which the server sends one byte of TCP urgent data and then nothing
         for pt in (1.0, None):
             yield dict(kind='real-oob', pt=pt)
@@ -168,6 +173,64 @@ def run_slowpong(case, acc):
         acc.violation(key, 'C15 %s: t=%s handler takes %s' % (key, t, sleep), case, detail)
     else:
         acc.cls('slow-same-read/%s/%s/%s' % (case['what'], t, sleep))
+
+
+def run_busy_close(case, acc):
+    c = case['c']
+    horizon = 3 * c + 6.0
+    w = H.World(H.hs_server([]), horizon=horizon, stop_at=horizon, budget=60000, split_send=True)
+    st = {}
+
+    def policy(ws, ev, idx, run_):
+        if ev.name != 'poll':
+            return
+        npoll = run_.names.count('poll')
+        if npoll == 2 and 'refused' not in st:
+            done = []
+
+            def hook(_tag):
+                if not done:
+                    done.append(1)
+                    st['refused'] = H.app_call(run_, ws, 'close', 1000, 'from inside a send')
+            w.yield_hook = hook
+            st['outer'] = H.app_call(run_, ws, 'send_binary', b'o' * 300)
+            w.yield_hook = None
+            st['t_refused'] = w.now
+        elif case['inner'] == 'close-then-real-close-later' and 'real' not in st and 'refused' in st and w.now - st['t_refused'] >= c + 1.0 - EPS:
+            st['real'] = H.app_call(run_, ws, 'close', 1000, 'now for real')
+            st['t_real'] = w.now
+
+    run = H.drive(w, connect_kwargs=dict(poll=0.5, ping_rate=0, close_timeout=c), policy=policy, companion=False)
+    acc.count2('oracle', 'refused_close_runs')
+    names = run.names
+    detail = dict(events=[(n, round(t, 3)) for n, t in zip(names, run.times) if n != 'poll'][-6:], end=run.end, polls=names.count('poll'),
+                  refused=(st.get('refused') or {}).get('exc'), t_refused=st.get('t_refused'), t_real=st.get('t_real'))
+    if 'refused' not in st:
+        acc.inconclusive.append('C15 busy-close: the send never reached the middle of its write: %r' % (detail,))
+        return
+    key = None
+    if st['refused']['ok']:
+        # accepted after all (written before / after the frame in progress): then it is an ordinary close
+        acc.count2('oracle', 'nested_close_accepted')
+        return
+    forced = run.end == 'stop' and names[-1] == 'disconnected'
+    if 'real' not in st:
+        if forced:
+            key = 'forced-disconnect-without-a-close-frame:timer-started-by-a-close-that-was-refused'
+    else:
+        if not forced:
+            key = 'close-timeout-did-not-fire'
+        else:
+            dt = run.times[-1] - st['t_real']
+            detail['forced_after'] = round(dt, 3)
+            if dt < c - EPS:
+                key = 'forced-disconnect-before-close-timeout:timer-started-by-a-close-that-was-refused'
+            elif dt > c + 0.5 + EPS:
+                key = 'close-timeout-fired-late'
+    if key:
+        acc.violation(key, 'C15 %s: c=%s' % (key, c), case, detail)
+    else:
+        acc.cls('busy-close/%s/%s' % (c, case['inner']))
 
 
 def run_real_oob(case, acc):
@@ -316,6 +379,8 @@ def run_case(case, acc):
         return run_overlap(case, acc)
     if case.get('kind') == 'real-oob':
         return run_real_oob(case, acc)
+    if case.get('kind') == 'busy-close':
+        return run_busy_close(case, acc)
     p, r, t, c = case['p'], case['r'], case['t'], case['c']
     steps, table, horizon = build(case)
     w = H.World(H.hs_server(steps), horizon=horizon, stop_at=horizon, budget=60000,
